@@ -198,8 +198,156 @@ def build_basis(spec):
     return hcipy.ModeBasis(T, g)
 
 
-def build(spec):
-    return {'grid': build_grid, 'field': build_field, 'basis': build_basis}[spec['what']](spec)
+# ---------------------------------------------------------------------------------------------
+# modifications through the public API after construction and before writing: the object that is written
+# (and against which everything read back is compared) is the CURRENT one
+
+def _mod_grid(g, op):
+    k = op[0]
+    if k == 'scale':
+        if isinstance(g._weights, (list, tuple)):
+            raise TypeError('list weights cannot be scaled in place')
+        g.scale(op[1])
+    elif k == 'shift':
+        g.shift([op[1]] * g.ndim)
+    elif k == 'reverse':
+        g.reverse()
+    elif k == 'weights-array':
+        g.weights = np.arange(1, g.size + 1) / 4.0
+    elif k == 'weights-scalar':
+        g.weights = 0.75
+    elif k == 'weights-none':
+        g.weights = None
+    elif k == 'weights-touch':
+        g.weights                    # materialise the automatic weights
+    else:
+        raise MachineryError('grid mod ' + str(op))
+    return g
+
+
+def _new_modes(b, count, seed):
+    """`count` new modes compatible with the basis (dense: tensor shape + (N, count); sparse: CSC N x count)"""
+    import scipy.sparse
+    T = b._transformation_matrix
+    shape = tuple(T.shape[:-1]) + (count,)
+    ints = (np.arange(int(np.prod(shape))) * 7 + seed) % 11 - 5
+    if b.is_sparse:
+        ints = ints * (np.arange(ints.size) % 2)
+    dt = T.dtype.newbyteorder('=')
+    return _values(dt.name, ints).reshape(shape)
+
+
+def _mod_basis(b, op):
+    import hcipy
+    import scipy.sparse
+    k = op[0]
+    if k == 'append':
+        m = _new_modes(b, 1, op[1])[..., 0]
+        b.append(m)
+    elif k == 'append-field' and b.grid is not None and not b.is_sparse:
+        b.append(hcipy.Field(_new_modes(b, 1, op[1])[..., 0], b.grid))
+    elif k == 'extend':
+        m = _new_modes(b, op[2], op[1])
+        b.extend(scipy.sparse.csc_matrix(m) if b.is_sparse else m)
+    elif k == 'extend-basis':
+        m = _new_modes(b, op[2], op[1])
+        b.extend(hcipy.ModeBasis(scipy.sparse.csc_matrix(m) if b.is_sparse else m, b.grid))
+    elif k == 'set-tm':
+        m = _new_modes(b, op[2], op[1])
+        b.transformation_matrix = scipy.sparse.csc_matrix(m) if b.is_sparse else m
+    elif k == 'drop-last':
+        b.transformation_matrix = b.transformation_matrix[..., :-1] if b.num_modes > 1 else b.transformation_matrix
+    elif k == 'imul':
+        T = b.transformation_matrix
+        if T.dtype.kind == 'b':
+            raise TypeError('bool')
+        T *= 2
+        b.transformation_matrix = T
+    elif k == 'grid-scale' and b.grid is not None:
+        _mod_grid(b.grid, ['scale', 2.0])
+    elif k == 'set-grid' and b.grid is not None:
+        b.grid = b.grid.scaled(2.0) if not isinstance(b.grid._weights, (list, tuple)) else b.grid.copy()
+    else:
+        raise TypeError('not applicable: ' + str(op))
+    return b
+
+
+def _mod_field(f, op):
+    k = op[0]
+    kind = f.dtype.kind
+    if k == 'imul':
+        if kind == 'b':
+            raise TypeError('bool')
+        f *= 2
+    elif k == 'iadd':
+        if kind == 'b':
+            raise TypeError('bool')
+        f += 1
+    elif k == 'setitem':
+        f[..., op[1] % f.shape[-1]] = 1
+    elif k == 'setslice':
+        f[..., ::2] = 0
+    elif k == 'astype':
+        f = f.astype(op[1])
+    elif k == 'regrid-scaled':
+        f.grid = f.grid.scaled(2.0) if not isinstance(f.grid._weights, (list, tuple)) else f.grid.copy()
+    elif k == 'regrid-reversed':
+        f.grid = f.grid.reversed()
+    elif k == 'grid-scale':
+        _mod_grid(f.grid, ['scale', 2.0])
+    elif k == 'grid-weights':
+        _mod_grid(f.grid, ['weights-array'])
+    else:
+        raise MachineryError('field mod ' + str(op))
+    return f
+
+
+def apply_mods(spec, x, log=None):
+    fn = {'grid': _mod_grid, 'field': _mod_field, 'basis': _mod_basis}[spec['what']]
+    for op in spec.get('mods') or []:
+        try:
+            with warnings.catch_warnings():
+                warnings.simplefilter('ignore')
+                with _NewStyle(spec.get('newstyle')):
+                    x = fn(x, op)
+            if log is not None:
+                log.append('applied:' + op[0])
+        except MachineryError:
+            raise
+        except Exception as e:  # noqa  (the operation itself is not supported for this object: not C16's business)
+            if log is not None:
+                log.append('refused:%s:%s' % (op[0], type(e).__name__))
+    return x
+
+
+def build(spec, log=None):
+    x = {'grid': build_grid, 'field': build_field, 'basis': build_basis}[spec['what']](spec)
+    return apply_mods(spec, x, log)
+
+
+GRID_MODS = [['scale', 2.0], ['scale', 0.5], ['scale', -2.0], ['shift', 0.5], ['reverse'], ['weights-array'], ['weights-scalar'],
+             ['weights-none'], ['weights-touch']]
+FIELD_MODS = [['imul'], ['iadd'], ['setitem', 1], ['setslice'], ['astype', 'float32'], ['astype', 'int32'], ['regrid-scaled'],
+              ['regrid-reversed'], ['grid-scale'], ['grid-weights']]
+BASIS_MODS = [['append', 1], ['append-field', 2], ['extend', 3, 2], ['extend-basis', 4, 3], ['set-tm', 5, 2], ['drop-last'], ['imul'],
+              ['grid-scale'], ['set-grid']]
+
+
+def gen_mods(rng, what):
+    pool = {'grid': GRID_MODS, 'field': FIELD_MODS, 'basis': BASIS_MODS}[what]
+    r = rng.random()
+    n = 0 if r < 0.45 else (1 if r < 0.75 else (2 if r < 0.92 else 3))
+    out = []
+    for _ in range(n):
+        op = list(pool[int(rng.integers(0, len(pool)))])
+        if op[0] in ('append', 'append-field', 'extend', 'extend-basis', 'set-tm'):
+            op[1] = int(rng.integers(0, 11))
+        if op[0] in ('extend', 'extend-basis', 'set-tm'):
+            op[2] = int(rng.integers(1, 4))
+        if op[0] == 'setitem':
+            op[1] = int(rng.integers(0, 50))
+        out.append(op)
+    return out
 
 
 # ---------------------------------------------------------------------------------------------
@@ -218,7 +366,7 @@ def gen_chains(rng, n=2):
     return [[FORMATS[int(i)] for i in rng.integers(0, len(FORMATS), size=3)] for _ in range(n)]
 
 
-def gen_grid(rng, big=False):
+def gen_grid(rng, big=False, top_level=False):
     kind = ['regular', 'separated', 'unstructured'][int(rng.integers(0, 3))]
     ndim = int(rng.choice([1, 2, 2, 2, 3]))
     system = 'polar' if (ndim == 2 and rng.random() < 0.3) else 'cartesian'
@@ -271,6 +419,7 @@ def gen_grid(rng, big=False):
         spec['weights'] = {'t': 'auto'}
     spec['reversed'] = bool(rng.random() < 0.12)
     spec['cborder'] = gen_border(rng)
+    spec['mods'] = gen_mods(rng, 'grid') if top_level else []
     if spec['weights'] is not None and spec['weights']['t'] == 'array':
         spec['weights']['border'] = gen_border(rng)
     return spec
@@ -287,7 +436,7 @@ def gen_field(rng, big=False):
     return {'what': 'field', 'grid': g, 'tshape': ts, 'dtype': dt,
             'vals': [int(x) for x in rng.integers(-12, 13, size=n)],
             'layout': str(rng.choice(LAYOUTS, p=[0.3, 0.27, 0.15, 0.14, 0.14])), 'newstyle': bool(rng.random() < 0.3),
-            'border': gen_border(rng)}
+            'border': gen_border(rng), 'mods': gen_mods(rng, 'field')}
 
 
 def gen_basis(rng, big=False):
@@ -305,7 +454,7 @@ def gen_basis(rng, big=False):
     return {'what': 'basis', 'grid': g, 'npoints': npoints, 'kind': kind, 'tshape': ts, 'nmodes': nm, 'dtype': dt,
             'vals': [int(x) for x in vals], 'explicit_zero': bool(kind == 'sparse' and rng.random() < 0.3),
             'layout': 'C' if kind == 'sparse' else str(rng.choice(LAYOUTS, p=[0.3, 0.27, 0.15, 0.14, 0.14])),
-            'border': gen_border(rng)}
+            'border': gen_border(rng), 'mods': gen_mods(rng, 'basis')}
 
 
 def _g(kind, system='cartesian', **kw):
@@ -364,6 +513,20 @@ DIRECTED = [
     _b(_REG2, 'dense', nm=0), _b(_SEPR, 'dense'), _b(_SEPR, 'sparse'), _b(_UNS2, 'dense'), _b(_UNS2, 'sparse'),
     _b(_UNS2, 'dense', ts=[2]), _b(None, 'dense'), _b(None, 'sparse'), _b(_REG2, 'dense', dt='complex128'),
     _b(_REG2, 'sparse', dt='bool'),
+    # objects modified through their public API after construction (seeded class C16-6: a writer consulting a stale cache)
+    _b(_REG2, 'sparse', mods=[['append', 1]]), _b(_REG2, 'sparse', mods=[['extend', 3, 2]]), _b(_REG2, 'sparse', mods=[['set-tm', 5, 2]]),
+    _b(_REG2, 'sparse', mods=[['extend-basis', 4, 3], ['append', 2]]), _b(_REG1, 'sparse', dt='float32', mods=[['drop-last']]),
+    _b(_REG2, 'sparse', mods=[['imul']]), _b(_UNS2, 'sparse', mods=[['append', 1]]), _b(_SEPR, 'sparse', mods=[['extend', 1, 1]]),
+    _b(_REG2, 'dense', mods=[['append', 1]]), _b(_REG2, 'dense', mods=[['append-field', 2]]), _b(_REG2, 'dense', mods=[['extend', 3, 2]]),
+    _b(_REG2, 'dense', ts=[2], mods=[['append', 3], ['set-grid']]), _b(_REG2, 'dense', mods=[['set-tm', 5, 1]]), _b(_REG2, 'dense', mods=[['imul'], ['grid-scale']]),
+    _b(_REG2, 'dense', nm=0, mods=[['append', 4]]), _b(_UNS2, 'dense', mods=[['extend-basis', 2, 2]]),
+    dict(_REG2, mods=[['scale', 2.0]]), dict(_REG2, mods=[['shift', 0.5], ['reverse']]), dict(_SEPR, mods=[['scale', -2.0]]),
+    dict(_SEPP, mods=[['scale', 2.0]]), dict(_UNS2, mods=[['shift', 0.5], ['weights-array']]), dict(_REG2, mods=[['weights-touch'], ['scale', 0.5]]),
+    dict(_SEPR, mods=[['weights-array'], ['weights-none']]), dict(_UNS3, mods=[['scale', 2.0], ['weights-scalar']]), dict(_SEP3, mods=[['reverse']]),
+    _f(_REG2, [2], mods=[['imul']]), _f(_REG2, [], 'int16', mods=[['iadd'], ['setitem', 3]]), _f(_UNS2, [2, 2], mods=[['setslice']]),
+    _f(_REG2, [2], mods=[['astype', 'float32']]), _f(_REG2, [], mods=[['regrid-scaled']]), _f(_SEPR, [2], mods=[['regrid-reversed']]),
+    _f(_REG2, [2], mods=[['grid-scale']]), _f(_UNS2, [], mods=[['grid-weights']]), _f(_REG2, [2], newstyle=True, mods=[['imul'], ['setitem', 2]]),
+    _f(_REG2, [2], layout='F', mods=[['iadd']]), _f(_REG2, [2], border='>', mods=[['imul']]), _f(_REG2, [], newstyle=True, mods=[['astype', 'int32']]),
     # byte order as an input dimension (seeded class: a field that already holds big-endian values, e.g. read from FITS)
     _f(_REG2, [], border='>'), _f(_REG2, [2], border='>'), _f(_SEPR, [2, 2], 'float32', border='>'), _f(_REG2, [], 'int16', border='>'),
     _f(_REG2, [], 'int32', border='>'), _f(_REG2, [2], 'uint16', border='>'), _f(_UNS2, [2], border='>'), _f(_REG2, [2], 'complex128', border='>'),
@@ -536,7 +699,9 @@ def round_trips(spec, tmpdir):
     obs = {'fmt': {}}
     with warnings.catch_warnings():
         warnings.simplefilter('ignore')
-        x = build(spec)
+        modlog = []
+        x = build(spec, modlog)
+        obs['mods'] = modlog
         ref = sig(x)
         snap0 = snapshot(what, x)
         ck = class_key(spec)
@@ -767,11 +932,12 @@ def describe(spec):
         dims = g['dims'] if g['kind'] == 'regular' else [len(a) for a in g['axes']]
         gd = (g['kind'], g['system'], len(dims), g['cdtype'], g.get('cborder'), (g['weights'] or {'t': 'none'})['t'], bool(g['reversed']),
               'ragged' if len(set(dims)) > 1 else 'square')
+    mods = tuple(m[0] for m in spec.get('mods') or [])
     if what == 'grid':
-        return (what,) + gd
+        return (what, mods) + gd
     if what == 'field':
-        return (what, spec['dtype'], tuple(spec['tshape']), spec_layout(spec), spec['newstyle'], spec.get('border')) + gd
-    return (what, spec['kind'], spec['dtype'], tuple(spec['tshape']), spec['nmodes'], spec['explicit_zero'], spec_layout(spec), spec.get('border')) + gd
+        return (what, spec['dtype'], tuple(spec['tshape']), spec_layout(spec), spec['newstyle'], spec.get('border'), mods) + gd
+    return (what, spec['kind'], spec['dtype'], tuple(spec['tshape']), spec['nmodes'], spec['explicit_zero'], spec_layout(spec), spec.get('border'), mods) + gd
 
 
 def check_spec(ctx, spec, tmpdir, batch):
@@ -810,6 +976,9 @@ def check_spec(ctx, spec, tmpdir, batch):
         if o['w'] != 'ok' and fmt in ('asdf', 'pkl') and obs.get('to_dict') == 'ok':
             ctx.disagree('C16 write', {'spec': spec, 'fmt': fmt, 'impl': o['w'] + ': ' + o.get('w_msg', ''),
                                        'model': 'every object with a dictionary form can be written to asdf and pickle'})
+    for m in obs.get('mods', []):
+        ctx.count('mod:%s:%s' % (what, m))
+    ctx.count('%s:modified-after-construction' % what if any(m.startswith('applied') for m in obs.get('mods', [])) else '%s:fresh' % what)
     ctx.count('chain-hops-written+read', obs.get('chain_hops', 0))
     for r in obs.get('chain_refused', []):
         ctx.count('chain-write-refused:' + r)
@@ -864,10 +1033,10 @@ def run(ctx):
                         'dtype equality is taken up to byte order: FITS images come back big endian']
     rng = ctx.rng
     big = ctx.tier == 'thorough'
-    ng, nf, nb = ctx.scale((25, 60, 55), (350, 700, 600))
+    ng, nf, nb = ctx.scale((20, 45, 40), (350, 700, 600))
     specs = [copy.deepcopy(s) for s in DIRECTED]
     for _ in range(ng):
-        specs.append(gen_grid(rng, big))
+        specs.append(gen_grid(rng, big, top_level=True))
     for _ in range(nf):
         specs.append(gen_field(rng, big))
     for _ in range(nb):
